@@ -245,6 +245,9 @@ package annotations
 //@   ensures forall t string, fname string, p token.Pos :: mutHasP(result.MutableAnnotations, t, fname, p) <==> (exists f *ast.File :: contains(pass.Files, f) && !skipFile(cfg, pass, f) && mdeclsHit(f, len(f.Decls), t, fname, p, cur))
 //@   loop 1 frame
 //@   loop 2 frame
+// the import map handed to parseImplementsAnnotation is the map of the file at hand: one entry per import spec of that file, in order
+//@   loop 2 invariant imports != nil && len(*imports) == $i && (forall k int :: 0 <= k && k < $i ==> (*imports)[k].FullPath == strings.Trim($seq[k].Path.Value, "\""))
+//@   at call parseImplementsAnnotation#1 assert len(*$arg3) == len(file.Imports) && (forall k int :: 0 <= k && k < len(file.Imports) ==> (*$arg3)[k].FullPath == strings.Trim(file.Imports[k].Path.Value, "\""))
 //@   loop 3 frame
 //@   loop 4 frame
 //@   loop 5 frame
